@@ -413,10 +413,12 @@ pub fn run(args: &Args) -> i32 {
     }) {
         ev.merge(p);
     }
+    // the same property with the byte stream arriving as TLS records (net engine, independent TLS peer)
+    crate::util::merge_net_leg(&mut ev, args, "c05tls");
     let meta = Meta {
         property_id: "C05",
         level: "exploration",
-        rule: "one evaluation = one execution of one byte stream under one partition. Server role: streams of 1-40 MBAP frames (valid, invalid, empty, 253-byte PDUs) optionally ended by a malformed header (protocol id, length 0, length > 254) followed by a valid write; each stream runs under 10 partitions (whole, 1-byte, random, per-frame, header/body, 260-byte buffer edge, bursts), a third of them with virtual delays and decode-level commands cancelling the pending read. Client role: per request a mini-stream of stale + genuine frames cut the same ways. Oracles: pairwise equality across partitions, equality with the reference framing + reference server, session ends with a framing error at the malformed header and nothing after it is executed. distinct = (role, partition style, tail kind, delay, compaction reached)".into(),
+        rule: "one evaluation = one execution of one byte stream under one partition. Server role: streams of 1-40 MBAP frames (valid, invalid, empty, 253-byte PDUs) optionally ended by a malformed header (protocol id, length 0, length > 254) followed by a valid write; each stream runs under 10 partitions (whole, 1-byte, random, per-frame, header/body, 260-byte buffer edge, bursts), a third of them with virtual delays and decode-level commands cancelling the pending read. Client role: per request a mini-stream of stale + genuine frames cut the same ways. Oracles: pairwise equality across partitions, equality with the reference framing + reference server, session ends with a framing error at the malformed header and nothing after it is executed. TLS leg: the same kind of stream sent to a real rodbus TLS server by an independent TLS peer as one record / 1-byte / 7-byte / header-split / 259+261-byte / random records (reply stream and write log equal to the reference in every run, session closed at the malformed header, nothing behind it executed), and a real rodbus TLS client whose replies arrive in 1 / 3 / 7 / header-split / random records. distinct = (role, partition style, tail kind, delay, compaction reached)".into(),
         assumptions: vec![
             "compaction counter is computed from a harness model of a 260-byte buffer and is reported as coverage only".into(),
         ],
@@ -426,6 +428,9 @@ pub fn run(args: &Args) -> i32 {
             ("client_executions".into(), args.tier.pick(60_000, 1_500_000)),
             ("executions_reaching_buffer_compaction".into(), args.tier.pick(1_000, 50_000)),
             ("malformed_headers_checked".into(), args.tier.pick(1_000, 50_000)),
+            ("tls_server_runs".into(), args.tier.pick(50, 400)),
+            ("tls_client_requests".into(), args.tier.pick(20, 200)),
+            ("tls_session_closed_after_malformed_header".into(), args.tier.pick(20, 150)),
         ],
         min_classes: 30,
     };
